@@ -50,7 +50,9 @@ NoOp == [a |-> "none"]
 NB == 2
 Bufs == 1..NB
 DataCat == << <<>>, <<"a">>, <<"b">>, <<"C">>, <<"L">>, <<"N">>, <<"a", "C", "L">>, <<"a", "b">>, <<"C", "L">>,
-              <<"b", "L", "a">>, <<"a", "a">>, <<"L", "C">>, <<"b", "N", "a">>, <<"a", "C">> >>
+              <<"b", "L", "a">>, <<"a", "a">>, <<"L", "C">>, <<"b", "N", "a">>, <<"a", "C">>,
+              \* 15..19: WB, WB+1 .. WB+4 bytes (sweeps across an exact chain capacity), and WB+WA+2
+              <<"b">> \o <<"L">>, <<"b", "C", "L">>, <<"b", "C", "L", "C">>, <<"b", "C", "L", "C", "L">>, <<"b", "N", "a", "C">> >>
 Datas == {DataCat[i] : i \in DataSel}
 Other(b) == 3 - b
 
@@ -453,6 +455,15 @@ KnownMcPull(i, op) ==
     [] i = 5 -> op.a = "pullup" /\ op.b = 1 /\ op.n = -1
     [] OTHER -> FALSE
 
+(* directed family "dir_rd": a chain filled exactly, a socket read that fills the next chain exactly (or not), a drain
+   of part of the first chain, a small add: the added bytes must come after the bytes read *)
+DirRead(i, op) ==
+  CASE i = 0 -> op.a = "add" /\ op.b = 1 /\ op.d = <<"b", "N", "a">>
+    [] i = 1 -> op.a = "evread" /\ op.b = 1 /\ op.e = 0 /\ op.k = -1 /\ op.d # <<>>
+    [] i = 2 -> op.a = "drain" /\ op.b = 1
+    [] i = 3 -> op.a = "add" /\ op.b = 1 /\ Len(op.d) = 1
+    [] OTHER -> FALSE
+
 KnownCyc(i, op) ==
   CASE i = 0 -> op.a = "addref" /\ op.b = 1
     [] i = 1 -> op.a = "addbufref" /\ op.b = 2 /\ op.s = 1
@@ -478,6 +489,7 @@ OpSane(S, op) ==
   /\ (op.a = "pullup" /\ S.mcu => "mcpull" \in Acts)
   /\ ("mcpull" \in Acts => KnownMcPull(Len(hist), op))
   /\ ("cyc" \in Acts => KnownCyc(Len(hist), op))
+  /\ ("dir_rd" \in Acts => DirRead(Len(hist), op))
   /\ (op.a = "evread" => Fits(S, op.b, S.fdin \o op.d) /\ Bytes(S.fdin \o op.d) <= 4096 /\ (op.e # 0 => op.k = -1))
   /\ (op.a \in {"evwrite", "sfwrite"} => (op.e # 0 => op.k = -1))
   \* C15 predicts the moment of every cleanup: zero-length segments sit in an empty chain whose release is layout-dependent
